@@ -91,6 +91,10 @@ def endings():
                   dict(close=(None, None), err=False)))
     for cb in ("on_open", "on_message", "on_ping"):
         E.append(("keyboardinterrupt-in-%s" % cb, dict(tail=[(6.0, "eof", b"")], ki=cb), dict(close=(None, None), err=True)))
+    # the interrupt (Ctrl-C, sys.exit) arrives while on_close itself is running: on_close has been called exactly once, with the server's
+    # status, however the interrupt travels on (what else is reported then, and whether run_forever raises, is not specified)
+    E.append(("keyboardinterrupt-in-on_close/server-close", dict(tail=[(3.0, "data", R.encode(R.CLOSE, b"\x03\xe8bye"))], ki="on_close"), dict(close=(1000, "bye"), err=False, ki_on_close=True)))
+    E.append(("keyboardinterrupt-in-on_close/eof", dict(tail=[(3.0, "eof", b"")], ki="on_close"), dict(close=(None, None), err=True, ki_on_close=True)))
     E.append(("close-from-on_error/eof", dict(tail=[(3.0, "eof", b"")], close_from="on_error", on_close="reply+eof"), dict(close=(None, None), err=True)))
     return E
 
@@ -265,6 +269,13 @@ def check_run(run, res, spec):
             e2 = dict(exp["second"], name=name)
         cbs = [e for e in tr if not e[1].startswith("--")]
         ret_idx = [i for i, e in enumerate(tr) if e[1] == "--run-returned--"]
+        if exp.get("ki_on_close") and not (k == 1 and spec.get("second_no_raise")):
+            closes = [e for e in cbs if e[1] == "on_close"]
+            if len(closes) != 1:
+                raise V("on-close-count", "%s: on_close (which raises KeyboardInterrupt) was called %d times" % (which, len(closes)), count=len(closes))
+            if closes[0][2] != tuple(exp["close"]):
+                raise V("on-close-args", "%s: on_close%r, expected %r" % (which, closes[0][2], tuple(exp["close"])), got_none=closes[0][2] == (None, None))
+            continue
         if out[0] != "ret":
             if spec.get("raise_exc") == "KeyboardInterrupt" and spec.get("raising") == "on_close":
                 continue
